@@ -111,6 +111,9 @@ pub enum DsOp {
     GetData(usize),
 }
 
+/// data code of the monoid identity
+const EMPTY: u32 = u32::MAX;
+
 #[derive(Clone, Debug, Default)]
 struct DsModel {
     /// classes: members + data multiset (empty = none)
@@ -151,6 +154,14 @@ impl DsModel {
                     self.classes.remove(ib);
                 }
             }
+            // the data code EMPTY stands for the monoid identity (an empty set / multiset)
+            DsOp::AddData(x, EMPTY) => {
+                self.touch(x);
+            }
+            DsOp::SetData(x, EMPTY) => {
+                let i = self.touch(x);
+                self.classes[i].1 = BTreeMap::new();
+            }
             DsOp::AddData(x, d) => {
                 let i = self.touch(x);
                 Self::combine(&mut self.classes[i].1, BTreeMap::from([(d, 1)]), idem);
@@ -167,6 +178,8 @@ fn apply_impl<D: Mono>(ds: &mut DisjointSet<usize, D>, op: DsOp) {
     match op {
         DsOp::Insert(x) => ds.insert(x),
         DsOp::Union(a, b) => ds.union(&a, &b),
+        DsOp::AddData(x, EMPTY) => ds.add_data(&x, D::identity()),
+        DsOp::SetData(x, EMPTY) => ds.set_data(&x, D::identity()),
         DsOp::AddData(x, d) => ds.add_data(&x, D::single(d)),
         DsOp::SetData(x, d) => ds.set_data(&x, D::single(d)),
         DsOp::Find(x) => {
@@ -358,6 +371,8 @@ fn ds_alphabet(n: usize) -> Vec<DsOp> {
         if n >= 4 {
             v.push(DsOp::AddData(x, 2));
             v.push(DsOp::SetData(x, 1));
+        } else {
+            v.push(DsOp::AddData(x, EMPTY));
         }
         for y in 0..n {
             v.push(DsOp::Union(x, y));
@@ -436,6 +451,10 @@ pub enum VmOp {
     Remove(usize),
     /// get_mut + add one
     Bump(usize),
+    /// replace the map by one built with `From` from the list of its own pairs, preceded by a stale
+    /// duplicate of the first key (a list in which a key appears twice; the later pair wins);
+    /// true = `From<Vec<(K, V)>>`, false = `From<&[(K, V)]>`
+    Rebuild(bool),
 }
 
 fn vm_observe(vm: &VectorMap<usize, u32>, model: &BTreeMap<usize, u32>, universe: usize) -> Option<String> {
@@ -502,6 +521,18 @@ fn vm_apply(vm: &mut VectorMap<usize, u32>, model: &mut BTreeMap<usize, u32>, op
                 None
             }
         }
+        VmOp::Rebuild(from_vec) => {
+            let mut list: Vec<(usize, u32)> = model.iter().map(|(k, v)| (*k, *v)).collect();
+            match list.first().copied() {
+                Some((k0, v0)) => list.insert(0, (k0, v0.wrapping_add(7))),
+                None => {
+                    list = vec![(0, 1), (0, 2)];
+                    model.insert(0, 2);
+                }
+            }
+            *vm = if from_vec { VectorMap::from(list) } else { VectorMap::from(list.as_slice()) };
+            None
+        }
         VmOp::Bump(k) => {
             let a = vm.get_mut(&k).map(|v| {
                 *v = v.wrapping_add(1);
@@ -538,6 +569,10 @@ fn vm_step_label(vm_len_slots: usize, model: &BTreeMap<usize, u32>, op: VmOp, ac
         }
         VmOp::Remove(_) => (false, "remove of a present key"),
         VmOp::Bump(_) => (false, "get_mut"),
+        VmOp::Rebuild(_) => {
+            acc.label("vm:built-from-a-list-with-a-repeated-key");
+            (true, "construction from a list with a repeated key")
+        }
     }
 }
 
@@ -584,6 +619,8 @@ fn vm_alphabet() -> Vec<VmOp> {
     for k in 0..5 {
         v.push(VmOp::Remove(k));
     }
+    v.push(VmOp::Rebuild(true));
+    v.push(VmOp::Rebuild(false));
     v
 }
 
@@ -627,8 +664,8 @@ fn gen_ds_ops(ch: &mut Chooser) -> Vec<DsOp> {
             match ch.below(12) {
                 0 | 1 => DsOp::Insert(x),
                 2..=5 => DsOp::Union(x, ch.below(universe)),
-                6 | 7 => DsOp::AddData(x, ch.below(4) as u32),
-                8 => DsOp::SetData(x, ch.below(4) as u32),
+                6 | 7 => DsOp::AddData(x, if ch.chance(1, 6) { EMPTY } else { ch.below(4) as u32 }),
+                8 => DsOp::SetData(x, if ch.chance(1, 6) { EMPTY } else { ch.below(4) as u32 }),
                 9 => DsOp::Find(x),
                 10 => DsOp::GetData(x),
                 _ => DsOp::Union(x, x),
@@ -646,9 +683,10 @@ fn gen_vm_ops(ch: &mut Chooser) -> Vec<VmOp> {
     (0..len)
         .map(|_| {
             let k = ch.below(universe);
-            match ch.below(6) {
-                0..=2 => VmOp::Insert(k, ch.below(5) as u32),
-                3 | 4 => VmOp::Remove(ch.below(universe + 2)),
+            match ch.below(13) {
+                0..=5 => VmOp::Insert(k, ch.below(5) as u32),
+                6..=9 => VmOp::Remove(ch.below(universe + 2)),
+                12 => VmOp::Rebuild(ch.chance(1, 2)),
                 _ => VmOp::Bump(k),
             }
         })
